@@ -14,6 +14,19 @@ fn main() {
             continue;
         }
         let toks: Vec<&str> = line.split_ascii_whitespace().collect();
+        if toks[0] == "cfg" {
+            // shared configuration lines: validated against what this binary really is
+            use mmtk::vm::VMBinding;
+            let ok = match toks[1] {
+                "debug" => (toks[2] == "1") == cfg!(debug_assertions),
+                "vm_align" => {
+                    unum(toks[2]) == vvm::VerifVM::MIN_ALIGNMENT && unum(toks[3]) == vvm::VerifVM::MAX_ALIGNMENT
+                }
+                _ => true,
+            };
+            writeln!(out, "{}", if ok { "ok" } else { "cfg-mismatch" }).unwrap();
+            continue;
+        }
         let res = guarded(|| vvm::comp::dispatch(&toks).unwrap_or_else(|| "bad-op".to_string()));
         writeln!(out, "{res}").unwrap();
     }
